@@ -52,6 +52,10 @@ def scenario(tier, steps, four=False, lean=False, two_files=False, mixed=False):
         cur = dict(files)
         if mixed:
             # a history whose files were first recorded in different formats; rename detection runs with yet another one
+            b.mkfile("R/d/empty.log", 7, size=0)
+            cur["R/d/empty.log"] = 7
+            r = b.run("create", root="R", h=["md5"], sf=["R/d/empty.log"])
+            b.require(r.exit == 0, "setup-create", str(r))
             b.mkfile("R/d/late.txt", 8)
             b.mkfile("R/late2.txt", 9)
             cur["R/d/late.txt"], cur["R/late2.txt"] = 8, 9
@@ -114,7 +118,7 @@ def scenario(tier, steps, four=False, lean=False, two_files=False, mixed=False):
         # verify still fails if a renamed file's content is changed as well
         renamed_now = [f for f in cur if posixpath.basename(f).startswith("ren")]
         if renamed_now and (lean or sym.flag("then_alter_renamed")):
-            b.alter(sorted(renamed_now)[0], 77)
+            b.alter(sorted(renamed_now)[0], 77, size=6)  # (also for a file that was empty: other bytes, not just another content id)
             r = b.run("verify", root="R")
             b.require(r.exit == 11, "renamed-and-changed-fails", "verify after altering %s: %s" % (rel(sorted(renamed_now)[0]), r))
     return fn
@@ -163,7 +167,7 @@ def nested(b, sym):
         b.require(r2.exit == 0 and r2.exc is None, "accepted-afterwards", "%s afterwards: exit %s exc %s | %s" % (cmd, r2.exit, r2.exc, (r2.err + r2.out)[:3]))
 
 
-def harnesses(tier):
+def _harnesses(tier):
     out = ["directory renames", "renames across history boundaries", "-n generations", "files with identical contents"]
     hs = [Harness("c17-renames", scenario(tier, 1, tier != "quick"), frontier=6, budget_s=2400,
                   what="3 (quick) / 4 (thorough) files with distinct contents in 3 directories; every combination of stay / rename in place / move to "
@@ -186,3 +190,8 @@ def harnesses(tier):
                            "optional unrelated new file in a new directory; create -dr with the recorded or another format; then verify / create",
                       bounds={"histories": 2, "files": 3, "formats": "md5 recorded; -dr with md5 | sha1"}, outside=out))
     return hs
+
+
+def harnesses(tier):
+    from . import tour
+    return list(_harnesses(tier)) + tour.harnesses(tier, "C17")
